@@ -64,6 +64,7 @@ class Ctx:
         self.concrete = concrete      # dict name -> python value: run the harness concretely (no proxies)
         self.axioms_used = set()
         self._uf_apps = {}
+        self.track_consts = False   # SynthDef harnesses: concrete floats join the constant equivalence classes
         self.retry_timeout_ms = max(timeout_ms, 10000)
 
     # ---- variables
@@ -969,7 +970,13 @@ class _FloatMeta(type):
             return x
         if isinstance(x, (SymInt, SymIdx)):
             return SymReal(z3.ToReal(x.e))
-        return _bi.float(x)
+        if isinstance(x, SymBool):
+            return SymReal(z3.If(x.e, z3.RealVal(1), z3.RealVal(0)))
+        v = _bi.float(x)
+        ctx = Ctx.cur
+        if ctx is not None and ctx.track_consts and v == v and v not in (math.inf, -math.inf):
+            return register_const(v)
+        return v
 
     def __eq__(cls, o):
         return o is cls or o is _bi.float
@@ -1179,3 +1186,27 @@ class shims:
 
 
 _MISSING = object()
+
+
+import struct as _struct
+
+
+class StructShim:
+    """`struct` for the definition/OSC writers: symbolic reals are packed as the f32-exact representative of their
+    equivalence class (read back by vf/scgf.py + rep_term); bounded symbolic ints are concretised by forking."""
+    error = _struct.error
+    calcsize = staticmethod(_struct.calcsize)
+    unpack = staticmethod(_struct.unpack)
+    unpack_from = staticmethod(_struct.unpack_from)
+
+    @staticmethod
+    def pack(fmt, *vals):
+        out = []
+        for v in vals:
+            if isinstance(v, SymReal):
+                out.append(class_rep(v))
+            elif isinstance(v, SymInt):
+                out.append(v.__index__())
+            else:
+                out.append(v)
+        return _struct.pack(fmt, *out)
